@@ -13,7 +13,9 @@ NvMasks(len) == {<<1, {}>>, <<1, {1}>>, <<1, {len}>>, <<1, {(len \div 2) + 1}>>,
 Rows(len, nv, mask) == [i \in 1..len |-> [v \in 1..nv |-> IF i \in mask /\ (v = 1 \/ i % 2 = 0) THEN NaN ELSE Gen(i, v)]]
 
 Starts(f) == CASE f = "D" -> {DayNumber(2020, 2, 27), DayNumber(2019, 12, 30), DayNumber(2020, 1, 1), DayNumber(2019, 3, 1),
-                              DayNumber(2020, 6, 29), DayNumber(2021, 2, 27)}
+                              DayNumber(2020, 6, 29), DayNumber(2021, 2, 27),
+                              \* samples that end exactly on 31 December of a leap year (lengths 3, 5, 4 below)
+                              DayNumber(2020, 12, 29), DayNumber(2020, 12, 27), DayNumber(2020, 12, 28)}
                [] f = "M" -> {FromYS(f, 2019, s).n : s \in {1, 2, 3, 4, 6, 7, 9, 12}}
                [] OTHER   -> {FromYS(f, 2019, s).n : s \in 1..PerYear(f)} \cup {FromYS(f, 2020, PerYear(f)).n}
 AggLens(f, tf) == IF f = "D" THEN (IF tf = "M" THEN {3, 35, 64} ELSE IF tf = "Q" THEN {5, 95} ELSE {4, 190})
